@@ -1,5 +1,6 @@
 import Proofs.RdataTextIP6e
 import Proofs.RdataTextField
+import Proofs.RdataTextField2
 /-! APL items `[!]family:address/prefix` (C05): characters of the printed addresses, `split(sep, 1)`, the item round trip. -/
 namespace Model
 
@@ -121,22 +122,38 @@ theorem splitFirst_append (c : Nat) (a b : List Nat) (h : c ∉ a) : splitFirst 
     have := ih (fun hm => h (by simp [hm]))
     simp [splitFirst, hx, this]
 
+theorem hexlify_addrCh (d : Bytes) (hd : ∀ x ∈ d, x < 256) : ∀ c ∈ hexlify d, AddrCh c := by
+  intro c hc
+  simp only [hexlify, List.mem_flatMap] at hc
+  obtain ⟨x, hx, hc⟩ := hc
+  have := hd x hx
+  simp only [List.mem_cons, List.mem_nil_iff, or_false] at hc
+  rcases hc with rfl | rfl
+  · exact Or.inl (hexDigitLower_isHexL _ (by omega))
+  · exact Or.inl (hexDigitLower_isHexL _ (by omega))
+
 theorem aplBody_parse (f : Nat) (neg : Bool) (a : Text) (bytes : Bytes) (p : Nat) (ha : ∀ x ∈ a, AddrCh x)
-    (hres : (f = 1 ∧ ip4Aton a = some bytes ∧ p ≤ 32) ∨ (f = 2 ∧ ip6Aton a = some bytes ∧ p ≤ 128)) :
+    (hres : (f = 1 ∧ ip4Aton a = some bytes ∧ p ≤ 32) ∨ (f = 2 ∧ ip6Aton a = some bytes ∧ p ≤ 128) ∨
+      (f ≠ 1 ∧ f ≠ 2 ∧ f ≤ 65535 ∧ a.length ≤ 127 ∧ unhexlify a = some bytes ∧ p ≤ 255)) :
     parseAplBody neg (natToDec f ++ 58 :: (a ++ 47 :: natToDec p)) = some (f, neg, bytes, p) := by
   unfold parseAplBody
   rw [splitFirst_append 58 _ _ (natToDec_ne58 f)]
   simp only [pyInt10_natToDec]
   rw [splitFirst_append 47 _ _ (addrCh_ne47 a ha)]
   simp only [pyInt10_natToDec]
-  rcases hres with ⟨rfl, h4, hp⟩ | ⟨rfl, h6, hp⟩
+  rcases hres with ⟨rfl, h4, hp⟩ | ⟨rfl, h6, hp⟩ | ⟨h1, h2, hf, hl, hu, hp⟩
   · simp [h4, hp]
   · simp [h6, hp]
+  · have hf' : ¬ f > 65535 := by omega
+    have hl' : ¬ a.length > 127 := by omega
+    simp [h1, h2, hf', hl', hu, hp]
 
-/-- an item with a text form: family 1 (4 octets, prefix ≤ 32) or 2 (16 octets, prefix ≤ 128) -/
+/-- an item with a text form: family 1 (4 octets, prefix ≤ 32), 2 (16 octets, prefix ≤ 128), or another 16-bit family
+with at most 63 address octets (127 hex characters are the constructor's limit) and a prefix ≤ 255 -/
 def AplItemOk (it : Nat × Bool × Bytes × Nat) : Prop :=
   (it.1 = 1 ∧ (∃ x0 x1 x2 x3, it.2.2.1 = [x0, x1, x2, x3] ∧ x0 < 256 ∧ x1 < 256 ∧ x2 < 256 ∧ x3 < 256) ∧ it.2.2.2 ≤ 32) ∨
-  (it.1 = 2 ∧ it.2.2.1.length = 16 ∧ (∀ x ∈ it.2.2.1, x < 256) ∧ it.2.2.2 ≤ 128)
+  (it.1 = 2 ∧ it.2.2.1.length = 16 ∧ (∀ x ∈ it.2.2.1, x < 256) ∧ it.2.2.2 ≤ 128) ∨
+  (it.1 ≠ 1 ∧ it.1 ≠ 2 ∧ it.1 ≤ 65535 ∧ it.2.2.1.length ≤ 63 ∧ (∀ x ∈ it.2.2.1, x < 256) ∧ it.2.2.2 ≤ 255)
 
 theorem natToDec_head_ne33 (n : Nat) : ∃ d ds, natToDec n = d :: ds ∧ d ≠ 33 := by
   cases h : natToDec n with
@@ -151,9 +168,14 @@ theorem aplItem_rt (it : Nat × Bool × Bytes × Nat) (h : AplItemOk it) :
     ∃ t, printAplItem it = some t ∧ Plain t ∧ t ≠ [] ∧ parseAplItem ⟨.ident, t⟩ = some it := by
   obtain ⟨f, neg, bytes, p⟩ := it
   -- the address text and its facts
-  have key : ∃ a, (if f = 1 then ip4Ntoa bytes else if f = 2 then ip6Ntoa bytes else none) = some a ∧ (∀ x ∈ a, AddrCh x) ∧
-      ((f = 1 ∧ ip4Aton a = some bytes ∧ p ≤ 32) ∨ (f = 2 ∧ ip6Aton a = some bytes ∧ p ≤ 128)) := by
-    rcases h with ⟨hf, ⟨x0, x1, x2, x3, hb, h0, h1, h2, h3⟩, hp⟩ | ⟨hf, hlen, hb, hp⟩
+  have key : ∃ a, (if f = 1 then ip4Ntoa bytes else if f = 2 then ip6Ntoa bytes else some (hexlify bytes)) = some a ∧ (∀ x ∈ a, AddrCh x) ∧
+      ((f = 1 ∧ ip4Aton a = some bytes ∧ p ≤ 32) ∨ (f = 2 ∧ ip6Aton a = some bytes ∧ p ≤ 128) ∨
+        (f ≠ 1 ∧ f ≠ 2 ∧ f ≤ 65535 ∧ a.length ≤ 127 ∧ unhexlify a = some bytes ∧ p ≤ 255)) := by
+    rcases h with ⟨hf, ⟨x0, x1, x2, x3, hb, h0, h1, h2, h3⟩, hp⟩ | ⟨hf, hlen, hb, hp⟩ | ⟨h1, h2, hf, hlen, hb, hp⟩
+    rotate_left 2
+    · simp only at h1 h2 hf hlen hb hp
+      refine ⟨hexlify bytes, by simp [h1, h2], hexlify_addrCh bytes hb, Or.inr (Or.inr ⟨h1, h2, hf, ?_, unhexlify_hexlify bytes hb, hp⟩)⟩
+      rw [hexlify_length]; omega
     · simp only at hf hb hp; subst hf; subst hb
       obtain ⟨t, ht, hat⟩ := ip4_roundtrip x0 x1 x2 x3 h0 h1 h2 h3
       have htext : t = v4Text x0 x1 x2 x3 := by
@@ -162,7 +184,7 @@ theorem aplItem_rt (it : Nat × Bool × Bytes × Nat) (h : AplItemOk it) :
       rw [htext]; exact v4Text_addrCh x0 x1 x2 x3
     · simp only at hf hlen hb hp; subst hf
       obtain ⟨t, ht, hat⟩ := ip6_roundtrip bytes hlen hb
-      exact ⟨t, by simp [ht], ip6Ntoa_addrCh bytes hlen hb t ht, Or.inr ⟨rfl, hat, hp⟩⟩
+      exact ⟨t, by simp [ht], ip6Ntoa_addrCh bytes hlen hb t ht, Or.inr (Or.inl ⟨rfl, hat, hp⟩)⟩
   obtain ⟨a, hpa, hch, hres⟩ := key
   have hbody := aplBody_parse f neg a bytes p hch hres
   have hplbody : Plain (natToDec f ++ 58 :: (a ++ 47 :: natToDec p)) := by
